@@ -38,7 +38,7 @@ ASSUMPTIONS = [
     "in fix mode pass participation is not modelled: every sub-pass may be empty or a bare START for a rule; a fix-capable rule must take part in the first pass",
     "a bracket may be cut short only in the file where an injected fault fired",
 ]
-PROBES = ["fix_stream_vs_scan_checked", "scan_brackets_checked", "fix_token_brackets_checked", "fix_line_brackets_checked", "disabled_probe_checked", "empty_file", "no_final_newline", "pragma_token_stripped", "fix_with_token_fix", "probe_highest_level", "three_levels", "builtin_recorded", "fault_cut_short"]
+PROBES = ["wildcard_disable_checked", "token_only_rule_sets", "fix_stream_vs_scan_checked", "scan_brackets_checked", "fix_token_brackets_checked", "fix_line_brackets_checked", "disabled_probe_checked", "empty_file", "no_final_newline", "pragma_token_stripped", "fix_with_token_fix", "probe_highest_level", "three_levels", "builtin_recorded", "fault_cut_short"]
 
 EDGE_DOCS = [
     "edge_empty",
@@ -69,6 +69,8 @@ EDGE_DOCS = [
     "ws_no_eol",
     "ws_trailing_eof",
 ]
+LINE_RULES = ["md009", "md010", "md011", "md013", "md047"]  # the built-in rules that implement next_line
+TOKEN_ONLY_RULES = ["md001", "md012", "md022", "md024", "md025", "md031", "md041", "md043", "md005", "md007"]
 RECORD_BUILTINS = ["md001", "md009", "md010", "md012", "md013", "md022", "md027", "md031", "md044", "md047", "md005", "md007", "md048"]
 
 
@@ -90,8 +92,20 @@ def generate(rng, tier, index):
     if len(probe_ids) >= 2 and rng.random() < 0.4:
         disabled = rng.choice(probe_ids)
     disable_by_flag = rng.random() < 0.5
-    builtins_mode = rng.choice(["default", "default", "disabled", "some"])
-    recorded_builtins = rng.sample(RECORD_BUILTINS, rng.choice([0, 1, 2])) if builtins_mode != "disabled" else []
+    builtins_mode = rng.choice(["default", "default", "disabled", "some", "token-only", "wildcard"])
+    if builtins_mode == "token-only":
+        # no enabled rule implements next_line: the engine must still complete the file
+        probe_ids, probes, disabled = [], {}, None
+    if builtins_mode == "wildcard":
+        # `-d "*"` disables every rule, whatever -e says: nobody may be called
+        probe_ids = rng.choice([["zzz999"], ["aaa000", "zzz999"]])
+        probes = {pid: {"fix": rng.random() < 0.5, "level": 0} for pid in probe_ids}
+        disabled = None
+    recorded_builtins = rng.sample(RECORD_BUILTINS, rng.choice([0, 1, 2])) if builtins_mode not in ("disabled", "wildcard", "token-only") else []
+    if builtins_mode == "token-only":
+        recorded_builtins = rng.sample(TOKEN_ONLY_RULES, 3)
+        if "md043" not in recorded_builtins and rng.random() < 0.7:
+            recorded_builtins[0] = "md043"
     ops = []
     for k in range(n_ops):
         mode = rng.choice(["scan", "fix"])
@@ -109,6 +123,11 @@ def generate(rng, tier, index):
         flags = workload.probe_flags(probe_ids)
         if builtins_mode == "disabled":
             flags += ["-d", "<BUILTINS>"]
+        elif builtins_mode == "token-only":
+            flags += ["-d", ",".join(LINE_RULES + rng.sample([r for r in workload.DISABLE_POOL if r not in recorded_builtins and r not in LINE_RULES], 2))]
+            mode = "scan"
+        elif builtins_mode == "wildcard":
+            flags += ["-d", rng.choice(["*", "md047,*", "*,md001"]), "-e", ",".join(probe_ids + rng.sample(["md001", "md009", "md047"], 1))]
         elif builtins_mode == "some":
             pool = [r for r in workload.DISABLE_POOL if r not in recorded_builtins]
             flags += ["-d", ",".join(rng.sample(pool, 3))]
@@ -125,13 +144,16 @@ def generate(rng, tier, index):
         paths = sorted(files)
         rng.shuffle(paths)
         ops.append({"mode": mode, "flags": flags, "files": workload.files_to_spec(files), "docs": sorted(files), "labels": {prefix + n: lab for n, lab in labels.items()}, "paths": paths})
+    if builtins_mode == "wildcard":
+        recorded = []
     sc = {
         "cls": workload.draw_class(rng),
         "world": workload.draw_world(rng),
         "ops": ops,
+        "wildcard": builtins_mode == "wildcard",
         "probes": probes,
         "disabled": disabled,
-        "record": sorted(probe_ids) + recorded_builtins,
+        "record": (sorted(probe_ids) + recorded_builtins) if builtins_mode != "wildcard" else [],
         "builtins_mode": builtins_mode,
         "plan": [],
     }
@@ -470,6 +492,20 @@ def evaluate(sc):
                         )
                     )
                     break
+        # `-d "*"`: every rule is disabled, nothing may be delivered to anybody
+        if sc.get("wildcard"):
+            stats["wildcard_disable_checked"] += 1
+            calls = result["ops"][op_index].get("probe_calls", {})
+            total = sum(calls.values())
+            seen = result.get("impl", {})
+            if total or seen:
+                out.append(
+                    violation(
+                        "C14/disabled-rule-called",
+                        "C14/disabled-rule-called|wildcard|%s" % mode,
+                        {"op_index": op_index, "probe_calls": calls, "enabled_rules_seen": sorted(seen), "flags": op["flags"]},
+                    )
+                )
         # disabled rule receives nothing
         if sc.get("disabled"):
             calls = result["ops"][op_index].get("probe_calls", {}).get(sc["disabled"], 0)
@@ -482,6 +518,8 @@ def evaluate(sc):
                 stats["probe_highest_level"] += 1
             if view.fixed:
                 stats["fix_with_token_fix"] += 1
+    if sc.get("builtins_mode") == "token-only":
+        stats["token_only_rule_sets"] += 1
     faults = {"cb": [1, 1 if fired else 0]} if plan else {}
     return {"violations": out, "evals": 2 if sc.get("want_fault") else 1, "digests": [(value, checked > 0)], "stats": dict(stats), "faults": faults}
 
